@@ -98,3 +98,10 @@ impl FrameAckQueue {
     }
 }
 
+#[cfg(uflow_verif)]
+impl FrameAckQueue {
+    /// number of ack groups waiting to be transmitted
+    pub fn verif_len(&self) -> usize {
+        self.entries.len()
+    }
+}
